@@ -5,6 +5,7 @@
    <op>   ::= set <m> <I|S> <n> [<i>,<i>,...]     define / redefine module m
             | eval <m>                             evaluate `import! m`
             | load <m> <I|S> <n> [<i>,...]         load_script = set followed by eval (value shown as ok)
+            | async                                marker for the harness (VM with a tokio spawner); ignored here
    Reply: one segment per eval/load, joined by " | ":
      e<m> L=<res>/<ran> F=<res>/<ran>
    L: the incremental engine ([run]); F: [inc_eval] on an engine with the same sources and an empty
@@ -72,6 +73,7 @@ let handle line =
             let (e1, _) = run bump !e [Edit (nat_of_int (int_of_string m), source_of rest)] in e := e1;
             do_eval true (int_of_string m)
         | [] -> ()
+        | "async" :: _ -> ()   (* which VM flavour runs the history: irrelevant to the model *)
         | _ -> failwith ("bad op: " ^ o)) ops;
       String.concat " | " (List.rev !out)
 
